@@ -597,6 +597,7 @@ impl ClientRun {
                 FaultKind::IdentityAbort(_) => "fault.identity_abort",
                 FaultKind::StaleAfter(_) => "fault.stale_bytes_after_frame",
                 FaultKind::CloseIdle => "fault.closed_while_idle",
+                FaultKind::ReadErr(_) => "fault.transient_read_error_kind",
             });
         }
         stats.add("probe.duplicate_reservation", pt.duplicate_reservations);
